@@ -69,7 +69,8 @@ def gen(rng, tier):
             d = rand_bytes(rng, rng.choice([0, 8, 16, 20, 64, 200]))
             if d and rng.random() < 0.7:
                 d = enc(rng.random() < 0.5, 2, 1) + d[2:]
-            cases.append("viter %s %s %d %d %d %s | all | nexts 4" % (kind, rng.choice(SPECS), rng.choice((32, 64)), rng.choice(EDGE + [0xffff]), rng.choice(EDGE + [len(d)]), hx(d)))
+            cases.append("viter %s %s %d %d %d %s | all | nexts 4%s" % (kind, rng.choice(SPECS), rng.choice((32, 64)), rng.choice(EDGE + [0xffff]), rng.choice(EDGE + [len(d)]), hx(d),
+                                                                       " | names %s" % hx(rand_bytes(rng, rng.choice([0, 3, 30]))) if kind == "verdaux" else ""))
     # idents of every length; random bytes; random bytes after a valid ident
     ident = bytes([0x7f, 0x45, 0x4c, 0x46, 2, 1, 1, 0, 0]) + bytes(7)
     for ln in range(0, 17):
